@@ -517,8 +517,9 @@ def compose(ctx, prog, steps, ci, disp):
 
     for at_des in range(3):
         for at_round in range(16):
-            for stop in range(nsteps):
-                o = cf.Obj(ci, at_des=at_des, at_round=at_round, after_step=cf.Member(stop, 'Steps', byval[stop]), mode='encrypt')
+            for stop, as_member in ((s_, m_) for s_ in range(nsteps) for m_ in (True, False)):
+                # the stop step is documented as "an integer or a Steps enum value" and is stored as given: both forms are interpreted
+                o = cf.Obj(ci, at_des=at_des, at_round=at_round, after_step=cf.Member(stop, 'Steps', byval[stop]) if as_member else stop, mode='encrypt')
                 before = len(it.template_writes)
                 for c_ in prog.mro(ci):
                     for nm in c_.class_assigns:
@@ -543,7 +544,7 @@ def compose(ctx, prog, steps, ci, disp):
                     if changed:
                         it.class_attrs.clear()
                         it.globals.clear()
-                cfg = f'at_des={at_des}, at_round={at_round}, after_step={stop} ({byval[stop]})'
+                cfg = f'at_des={at_des}, at_round={at_round}, after_step={stop} ({byval[stop]}' + ('' if as_member else ', given as a plain integer') + ')'
                 if not isinstance(its, list) or len(its) != at_des + 1:
                     bad.setdefault(f'{len(its) if isinstance(its, list) else "?"} DES passes prepared', (at_des, at_round, stop))
                     continue
